@@ -86,6 +86,9 @@ fn check_msg(m: &[u8], rep: &mut Report, detail: &str) {
 }
 
 pub fn run(ctx: &Ctx) -> i32 {
+    if ctx.arg("leg") == Some("noop") {
+        return 0;
+    }
     let mut total = Report::new();
 
     // ---- 0. the two references agree with each other and with published vectors -------------
